@@ -2998,7 +2998,7 @@ fn translate_target(repo: &str, t0: &Target) -> Result<String, String> {
             syn::FnArg::Receiver(_) => None,
         })
         .collect();
-    let declared: Vec<String> = t.params.iter().map(|p| p.0.clone()).filter(|p| p != "self" && !p.starts_with("self.")).collect();
+    let declared: Vec<String> = t.params.iter().map(|p| p.0.clone()).filter(|p| p != "self" && !p.starts_with("self.") && !p.starts_with("env.")).collect(); // env.x: a piece of the environment (a generator, a clock) as a variable
     if rust_params != declared {
         return Err(format!("{} :: {}: parameters are {:?}, the table declares {:?}", t.file, t.func, rust_params, declared));
     }
